@@ -251,6 +251,19 @@ class Engine:
             if b is not None and b == conj:
                 return self.assume(L, t, st, depth + 1)
             return st
+        if k == 'BinaryOperator' and e.get('opcode') in ('<', '>', '<=', '>=', '==', '!='):
+            ks = tu.kids(e)
+            a, _ = self.decl_of(ks[0])
+            b, _ = self.decl_of(ks[1])
+            if a is not None and b is not None and ('c', a) in st and ('c', b) in st:
+                op = e['opcode']
+                if not t:
+                    op = {'<': '>=', '>': '<=', '<=': '>', '>=': '<', '==': '!=', '!=': '=='}[op]
+                if op in ('<', '<=', '=='):
+                    st[('le', a, b)] = 1
+                if op in ('>', '>=', '=='):
+                    st[('le', b, a)] = 1
+                return st
         if k == 'BinaryOperator' and e.get('opcode') in ('==', '!='):
             ks = tu.kids(e)
             eq = (e['opcode'] == '==') == t
@@ -301,6 +314,45 @@ class Engine:
             if not t:
                 st[('h', v)] = 'Z'
         return st
+
+    # ------------------------------------------------------------------ ordering facts between cursors
+    @staticmethod
+    def le_copy(st, dst, src):
+        """dst := src  (dst == src): dst inherits every ordering fact of src"""
+        for k in [k for k in st if isinstance(k, tuple) and k[0] == 'le' and (k[1] == dst or k[2] == dst)]:
+            del st[k]
+        for k in [k for k in st if isinstance(k, tuple) and k[0] == 'le']:
+            if k[1] == src:
+                st[('le', dst, k[2])] = 1
+            if k[2] == src:
+                st[('le', k[1], dst)] = 1
+        st[('le', dst, src)] = 1
+        st[('le', src, dst)] = 1
+
+    @staticmethod
+    def le_forward(st, v):
+        """v moved forward: facts v <= x are lost, x <= v stay"""
+        for k in [k for k in st if isinstance(k, tuple) and k[0] == 'le' and k[1] == v and k[2] != v]:
+            del st[k]
+
+    @staticmethod
+    def le_backward(st, v):
+        for k in [k for k in st if isinstance(k, tuple) and k[0] == 'le' and k[2] == v and k[1] != v]:
+            del st[k]
+
+    @staticmethod
+    def le_forget(st, v):
+        for k in [k for k in st if isinstance(k, tuple) and k[0] == 'le' and (k[1] == v or k[2] == v)]:
+            del st[k]
+
+    def need_le(self, f, st, a, b, node, what):
+        """require a <= b for two tracked cursors"""
+        if a == b or ('le', a, b) in st:
+            return
+        na, nb = self.names.get(a, '?'), self.names.get(b, '?')
+        self.finding('R-C16-5', f, 'unordered-range:%s..%s' % (na, nb),
+                     '%s uses the range [%s, %s) although `%s <= %s` is not established on this path (the end pointer may have '
+                     'been moved in front of the begin pointer): the length becomes negative / huge' % (what, na, nb, na, nb), node)
 
     # ------------------------------------------------------------------ findings
     def finding(self, rule, f, kind, detail, node):
@@ -399,12 +451,15 @@ class Engine:
                                             '`++%s` is executed although `%s[0]` is not known to be non-NUL on this path: '
                                             'at the terminating NUL the cursor leaves the buffer' % (nm, nm), n)
                             st[('c', v)] = (max(K - 1, 0), 1 if (A or N0) else 0, 0, 0, ())
+                            eng.le_forward(st, v)
                         else:
                             if not A:
                                 eng.finding('R-C16-1', f, 'retreat-before-buffer:%s' % nm,
                                             '`--%s` is executed although no non-whitespace byte is known to precede the '
                                             'cursor: it can move before the buffer' % nm, n)
                             st[('c', v)] = (min(K + 1, CAP) if B1 else 0, A if B1 else 0, 0, 0, ())
+                            eng.le_backward(st, v)
+                            st['$dec'] = tuple(sorted(set(st.get('$dec', ())) | {v}))
                         moved(st)
                     return [fz(st)]
                 return [fz(st)]
@@ -412,17 +467,59 @@ class Engine:
                 ks = tu.kids(n)
                 v, nm = eng.decl_of(ks[0])
                 if v is not None and ('c', v) in st:
-                    c = eng.const_of(ks[1])
-                    K, A, N0, B1, NE = st[('c', v)]
-                    if n.get('opcode') == '+=' and c is not None and c >= 0:
-                        if K < c:
-                            eng.finding('R-C16-1', f, 'advance-past-nul:%s' % nm,
-                                        '`%s += %d` although only %d leading byte(s) are known non-NUL' % (nm, c, K), n)
-                        st[('c', v)] = (max(K - c, 0), 1 if (A or (N0 and c > 0)) else 0, 0, 0, ())
-                        moved(st)
+                    rhs = tu.strip(ks[1], casts=True)
+                    cases = []
+                    if rhs is not None and rhs.get('kind') == 'ConditionalOperator':
+                        cnd, ea, eb = tu.kids(rhs)[:3]
+                        for t, arm in ((True, ea), (False, eb)):
+                            vv = eng.ev(cnd, st)
+                            if vv is not None and vv != t:
+                                continue
+                            cases.append((eng.assume(cnd, t, dict(st)), eng.const_of(arm)))
                     else:
-                        eng.undecide(f, 'cursor `%s` modified by %s with a non-constant or negative step' % (nm, n.get('opcode')), n)
-                        st[('c', v)] = (0, 0, 0, 0, ())
+                        cases.append((st, eng.const_of(ks[1])))
+                    res = []
+                    for st2, c in cases:
+                        st2 = dict(st2)
+                        K, A, N0, B1, NE = st2[('c', v)]
+                        if n.get('opcode') == '+=' and c is not None and c >= 0:
+                            if K < c:
+                                eng.finding('R-C16-1', f, 'advance-past-nul:%s' % nm,
+                                            '`%s += %d` is executed although only %d leading byte(s) are known to be non-NUL on this '
+                                            'path: the cursor can jump over the terminating NUL' % (nm, c, K), n)
+                            st2[('c', v)] = (max(K - c, 0), 1 if (A or (N0 and c > 0)) else 0, 0, 0, ())
+                            eng.le_forward(st2, v)
+                        else:
+                            eng.undecide(f, 'cursor `%s` modified by %s with a non-constant or negative step' % (nm, n.get('opcode')), n)
+                            st2[('c', v)] = (0, 0, 0, 0, ())
+                            eng.le_forget(st2, v)
+                        moved(st2)
+                        res.append(fz(st2))
+                    return res
+                return [fz(st)]
+            if k == 'BinaryOperator' and n.get('opcode') == '-':
+                ks = tu.kids(n)
+                a, _ = eng.decl_of(ks[0])
+                b, _ = eng.decl_of(ks[1])
+                if a is not None and b is not None and ('c', a) in st and ('c', b) in st:
+                    eng.need_le(f, st, b, a, n, 'the pointer difference `%s`' % tu.show(n))
+                return [fz(st)]
+            if k in ('CXXConstructExpr', 'CXXTemporaryObjectExpr') and 'basic_string' in tu.sd(n).get('q', ''):
+                args = [a for a in tu.kids(n) if a.get('kind') != 'CXXDefaultArgExpr']
+                if len(args) == 2:
+                    a, _ = eng.decl_of(args[0])
+                    b, _ = eng.decl_of(args[1])
+                    if a is not None and b is not None and ('c', a) in st and ('c', b) in st:
+                        eng.need_le(f, st, a, b, n, 'the std::string range constructor')
+                return [fz(st)]
+            if k == 'CXXMemberCallExpr' and tu.sd(n).get('q', '').split('::')[-1] in ('assign', 'append', 'insert') \
+                    and 'basic_string' in tu.sd(n).get('q', ''):
+                args = tu.call_parts(n)[2]
+                if len(args) == 2:
+                    a, _ = eng.decl_of(args[0])
+                    b, _ = eng.decl_of(args[1])
+                    if a is not None and b is not None and ('c', a) in st and ('c', b) in st:
+                        eng.need_le(f, st, a, b, n, 'std::string::%s(first, last)' % tu.sd(n).get('q', '').split('::')[-1])
                 return [fz(st)]
             if k == 'BinaryOperator' and n.get('opcode') == '=':
                 ks = tu.kids(n)
@@ -431,8 +528,10 @@ class Engine:
                     src, _ = eng.decl_of(ks[1])
                     if src is not None and ('c', src) in st:
                         st[('c', v)] = st[('c', src)]
+                        eng.le_copy(st, v, src)
                     else:
                         st[('c', v)] = (0, 0, 0, 0, ())
+                        eng.le_forget(st, v)
                     st['$vals'] = ()
                 elif v is not None and ('h', v) in st:
                     st[('h', v)] = eng.char_class_of(ks[1], st)
@@ -450,6 +549,7 @@ class Engine:
                         src, _ = eng.decl_of(init) if init is not None else (None, None)
                         if src is not None and ('c', src) in st:
                             st[('c', vd['id'])] = st[('c', src)]
+                            eng.le_copy(st, vd['id'], src)
                         else:
                             lit = tu.strip(init, casts=True) if init is not None else None
                             if lit is not None and lit.get('kind') == 'StringLiteral':
@@ -498,8 +598,12 @@ class Engine:
             if g.blocks[via].noret:
                 continue
             d = dict(s)
-            ex = fz({k: v for k, v in d.items() if isinstance(k, tuple) and k[0] == 'c' and k[1] in params})
-            outs.add((ex, d.get('$ret'), d.get('$adv', 0)))
+            ex = {k: v for k, v in d.items() if isinstance(k, tuple) and k[0] == 'c' and k[1] in params}
+            for k in d:
+                if isinstance(k, tuple) and k[0] == 'le' and k[1] in params and k[2] in params:
+                    ex[k] = 1
+            ex['$dec'] = tuple(x for x in d.get('$dec', ()) if x in params)
+            outs.add((fz(ex), d.get('$ret'), d.get('$adv', 0)))
         return outs
 
     def strlen(self, lit):
@@ -547,13 +651,30 @@ class Engine:
                 relevant = True
         if not relevant:
             return [fz(st)]
+        argvar = {}
+        for p, a in zip(ps, args):
+            if ('c', p['id']) in entry:
+                v, nm = self.decl_of(a)
+                if v is not None and ('c', v) in st:
+                    argvar[p['id']] = v
+        for p1, v1 in argvar.items():
+            for p2, v2 in argvar.items():
+                if p1 != p2 and (v1 == v2 or ('le', v1, v2) in st):
+                    entry[('le', p1, p2)] = 1
         outs = self.summ(cf, fz(entry))
         res = []
         for (ex, ret, adv) in outs:
             s2 = dict(st)
-            for (kk, pid), val in ex:
-                if pid in bind:
-                    s2[('c', bind[pid])] = val
+            exd = dict(ex)
+            for key, val in exd.items():
+                if isinstance(key, tuple) and key[0] == 'c' and key[1] in bind:
+                    s2[('c', bind[key[1]])] = val
+            for pid, v in bind.items():
+                # a cursor handed over by reference: the callee moved it forward (and backward if it says so)
+                if adv:
+                    self.le_forward(s2, v)
+                if pid in exd.get('$dec', ()):
+                    self.le_backward(s2, v)
             if adv:
                 moved(s2)
             if isinstance(ret, bool):
@@ -588,6 +709,8 @@ def check_cursor(ctx, tu):
     ctx.describe(R1, 'the parser cursor never passes the terminating NUL and no byte outside the buffer is read, on any path, '
                      'for any input (abstract interpretation with the non-NUL look-ahead domain)')
     ctx.describe(R2, 'every iteration of every loop of a parsing function moves the cursor (no hang on any input)')
+    ctx.describe('R-C16-5', 'every use of a [begin,end) pair of cursors as a range (pointer difference, std::string range '
+                            'construction/assign) is reached only with begin <= end established (copy + forward moves, or an explicit test)')
     entry = tu.fns(q='rkcommon::xml::parseXML')
     if len(entry) != 1 or tu.cfg(entry[0]) is None:
         ctx.broken('R-C16-1: entry point rkcommon::xml::parseXML not found in %s' % XML_FILE)
@@ -614,6 +737,12 @@ def check_cursor(ctx, tu):
             ctx.violation(x['rule'], inst, '%s  [at `%s`]' % (x['detail'], x['expr']), x['loc'], key=x['key'],
                           path=['entry parseXML(s) with nothing known about s', 'in %s (%d abstract entry state(s))' % (inst, cnt),
                                 'offending element at %s: %s' % (x['loc'], x['expr'])])
+        nranges = sum(1 for b, i, n in g.stmts() if (n.get('kind') == 'BinaryOperator' and n.get('opcode') == '-'
+                                                     and all(eng.decl_of(k)[0] in eng.names for k in tu.kids(n)))
+                      or (n.get('kind') in ('CXXConstructExpr', 'CXXTemporaryObjectExpr') and 'basic_string' in tu.sd(n).get('q', '')
+                          and sum(1 for k in tu.kids(n) if eng.decl_of(k)[0] in eng.names) == 2))
+        if nranges and not any(x['rule'] == 'R-C16-5' for x in mine):
+            ctx.ok('R-C16-5', inst, '%d range use(s) reached only with ordered cursors' % nranges, tu.fn_loc(fn))
         if not any(x['rule'] == R1 for x in mine):
             nreads = sum(1 for b, i, n in g.stmts() if n.get('kind') in ('ArraySubscriptExpr',) or
                          (n.get('kind') == 'UnaryOperator' and n.get('opcode') in ('*', '++', '--')))
@@ -727,6 +856,191 @@ def check_readxml(ctx, tu):
     ctx.floor(R3, nthrow, 8, 'throw expressions reachable from readXML on the pinned tree: 11')
 
 
+# ============================================================================================
+#  R-C16-4: pure output parameters are assigned on every successful return
+# ============================================================================================
+STR_OUT = ('std::basic_string<char> &', 'std::string &')
+WRITERS = {'operator=', 'assign', 'clear', 'swap'}
+
+
+class OutParams:
+    """For every function reachable from parseXML with a non-const std::string& parameter that the function never
+    reads (a pure output parameter): on every normal return - every return of `true` for bool functions - the
+    parameter has been assigned (directly, or by a callee to whose own pure output parameter it was forwarded).
+    A stale value surviving a 'successful' parse step would be reported as the value of the next property/name."""
+
+    def __init__(self, tu):
+        self.tu = tu
+        self.memo = {}
+        self.inprog = set()
+
+    def outs_of(self, f):
+        return [p for p in f.get('params', []) if p['ct'] in STR_OUT]
+
+    def param_ref(self, e, ids):
+        e = self.tu.strip(e, casts=True)
+        if e is not None and e.get('kind') == 'DeclRefExpr':
+            i = e.get('referencedDecl', {}).get('id')
+            if i in ids:
+                return i
+        return None
+
+    def analyse(self, f):
+        """returns dict param id -> {'pure': bool, 'outcomes': set of (ret, written)}"""
+        if f['id'] in self.memo:
+            return self.memo[f['id']]
+        if f['id'] in self.inprog:
+            return None
+        self.inprog.add(f['id'])
+        tu = self.tu
+        g = tu.cfg(f)
+        ids = {p['id'] for p in self.outs_of(f)}
+        reads = set()
+        # classify every use of an output parameter
+        write_nodes = {}     # node id -> (param id, 'write')
+        fwd_nodes = {}       # call node id -> [(param id, callee, callee param id)]
+        for b, i, n in g.stmts():
+            k = n.get('kind')
+            if k in ('CXXOperatorCallExpr', 'CXXMemberCallExpr'):
+                sd, obj, args = tu.call_parts(n)
+                name = sd.get('q', '').split('::')[-1]
+                pid = self.param_ref(obj, ids) if obj is not None else None
+                if pid is not None and name in WRITERS and 'basic_string' in sd.get('q', ''):
+                    write_nodes[n['id']] = pid
+                    continue
+            if k in ('CallExpr', 'CXXMemberCallExpr', 'CXXOperatorCallExpr', 'CXXConstructExpr'):
+                sd, obj, args = tu.call_parts(n)
+                cf = tu.callee_fn(n)
+                for idx, a in enumerate(args):
+                    pid = self.param_ref(a, ids)
+                    if pid is None:
+                        continue
+                    if cf is not None and tu.cfg(cf) is not None and idx < len(cf['params']) and cf['params'][idx]['ct'] in STR_OUT:
+                        fwd_nodes.setdefault(n['id'], []).append((pid, cf, cf['params'][idx]['id']))
+        used_ok = set()
+        for nid in list(write_nodes) + list(fwd_nodes):
+            n = tu.node(nid)
+            sd, obj, args = tu.call_parts(n)
+            for x in ([obj] if obj is not None else []) + list(args):
+                y = tu.strip(x, casts=True)
+                if y is not None and y.get('kind') == 'DeclRefExpr' and y.get('referencedDecl', {}).get('id') in ids:
+                    used_ok.add(y['id'])
+        for n in tu.walk(tu.body(f)):
+            if n.get('kind') == 'DeclRefExpr' and n.get('referencedDecl', {}).get('id') in ids and n['id'] not in used_ok:
+                reads.add(n['referencedDecl']['id'])
+        # callee summaries
+        callee_sum = {}
+        for nid, lst in fwd_nodes.items():
+            for (pid, cf, cpid) in lst:
+                r = self.analyse(cf)
+                callee_sum[(nid, pid)] = None if r is None else r.get(cpid)
+
+        def transfer(blk, i, el, s):
+            if el[0] != 'S':
+                return [s]
+            n = tu.node(el[1])
+            if n is None:
+                return [s]
+            written, calls, ret = s
+            k = n.get('kind')
+            if k == 'CXXThrowExpr':
+                return []
+            if n['id'] in write_nodes:
+                return [(written | {write_nodes[n['id']]}, calls, ret)]
+            if n['id'] in fwd_nodes:
+                outs = [(written, None)]
+                for (pid, cf, cpid) in fwd_nodes[n['id']]:
+                    cs = callee_sum.get((n['id'], pid))
+                    nxt = []
+                    for (w, r) in outs:
+                        if cs is None or not cs['pure']:
+                            nxt.append((w, r))      # in/out or recursive callee: nothing known
+                            continue
+                        for (cret, cw) in cs['outcomes']:
+                            if r is not None and cret is not None and r != cret:
+                                continue
+                            nxt.append((w | {pid} if cw else w, cret if r is None else r))
+                    outs = nxt
+                res = []
+                for (w, r) in outs:
+                    c2 = dict(calls)
+                    if isinstance(r, bool):
+                        c2[n['id']] = r
+                    res.append((frozenset(w), tuple(sorted(c2.items())), ret))
+                return res
+            if k == 'ReturnStmt':
+                ks = tu.kids(n)
+                return [(written, calls, self.ev(ks[0], dict(calls)) if ks else None)]
+            return [s]
+
+        def refine(blk, si, s):
+            if blk.cond is None or len(blk.succ) != 2:
+                return [s]
+            v = self.ev(tu.node(blk.cond), dict(s[1]))
+            if v is None or v == (si == 0):
+                return [s]
+            return []
+
+        res = g.explore([(frozenset(), (), None)], transfer, refine)
+        out = {}
+        for pid in ids:
+            outcomes = set()
+            for (s, via) in res.exits:
+                if g.blocks[via].noret:
+                    continue
+                outcomes.add((s[2], pid in s[0]))
+            out[pid] = {'pure': pid not in reads, 'outcomes': outcomes}
+        self.inprog.discard(f['id'])
+        self.memo[f['id']] = out
+        return out
+
+    def ev(self, e, calls, depth=0):
+        tu = self.tu
+        e = tu.strip(e, casts=True)
+        if e is None or depth > 8:
+            return None
+        if e['id'] in calls:
+            return calls[e['id']]
+        k = e.get('kind')
+        if k == 'CXXBoolLiteralExpr':
+            return bool(e.get('value'))
+        if k == 'UnaryOperator' and e.get('opcode') == '!':
+            v = self.ev(tu.kids(e)[0], calls, depth + 1)
+            return None if v is None else not v
+        return None
+
+
+def check_outparams(ctx, tu):
+    R4 = 'R-C16-4'
+    ctx.describe(R4, 'a pure output parameter (std::string& never read by the function) of a parsing function is assigned on '
+                     'every successful return, so no value of a previous parse step can survive into the next one')
+    entry = tu.fns(q='rkcommon::xml::parseXML')
+    if len(entry) != 1:
+        return
+    op = OutParams(tu)
+    n = 0
+    for f in sorted(reachable_fns(tu, entry[0]), key=lambda x: x['l']):
+        if tu.fn_file(f) != XML_FILE or not op.outs_of(f):
+            continue
+        r = op.analyse(f)
+        for p in op.outs_of(f):
+            info = r[p['id']]
+            inst = '%s %s: parameter `%s`' % (f['q'].replace('rkcommon::', ''), f['fty'], p['name'])
+            n += 1
+            if not info['pure']:
+                ctx.ok(R4, inst, 'in/out parameter (read by the function): no obligation', tu.fn_loc(f), nontrivial=False)
+                continue
+            is_bool = f['fty'].startswith('bool')
+            bad = [(ret, w) for (ret, w) in info['outcomes'] if not w and (ret is not False if is_bool else True)]
+            if bad:
+                ctx.violation(R4, inst, 'the function can return %s without having assigned its output parameter `%s`: the caller '
+                              'keeps the value of an earlier parse step' % ('successfully' if not is_bool else 'true/unknown', p['name']),
+                              tu.fn_loc(f), key='%s|%s|%s|unassigned-out:%s' % (R4, XML_FILE, f['q'].replace('rkcommon::', '') + ' ' + f['fty'], p['name']))
+            else:
+                ctx.ok(R4, inst, 'assigned on every successful return (outcomes: %s)' % sorted(info['outcomes'], key=repr), tu.fn_loc(f))
+    ctx.floor(R4, n, 4, 'output parameters of parseString / parseIdentifier / parseProp on the pinned tree: 4')
+
+
 def run(ctx):
     ctx.assume('the buffer handed to parseXML is NUL-terminated (established by R-C16-3 for readXML)')
     ctx.assume('library character predicates (isalpha, isdigit, isspace) return false for the NUL byte')
@@ -734,5 +1048,6 @@ def run(ctx):
     tu = ctx.front.parse(XML_FILE, 'TBB')
     check_cursor(ctx, tu)
     check_readxml(ctx, tu)
+    check_outparams(ctx, tu)
     from rkstatic import selftest
     selftest.run(ctx)
